@@ -84,11 +84,13 @@ class FakeStdin(anyio.abc.ByteSendStream):
         while c.in_buffered > c.capacity and not c.stdin_broken:
             blocked = True
             c.sim.probe("stdin_send_blocked")
-            c._in_waiter = asyncio.get_running_loop().create_future()
+            w = asyncio.get_running_loop().create_future()
+            c._in_waiters.append(w)  # several tasks may be blocked in drain() at once (writer task, reader's error reply)
             try:
-                await c._in_waiter
+                await w
             finally:
-                c._in_waiter = None
+                if w in c._in_waiters:
+                    c._in_waiters.remove(w)
         if c.stdin_broken and blocked:
             raise BrokenResourceError
         if not blocked:
@@ -135,7 +137,7 @@ class FakeChild:
         self.parent_closed_stdin = False
         self.stdout_released = False
         self._out_waiter = None
-        self._in_waiter = None
+        self._in_waiters = []
         self._exited = asyncio.Event()
         self._line_buf = bytearray()
         self._slow_timer = None
@@ -155,6 +157,11 @@ class FakeChild:
         self.out_eof = True
         self.sim.rec("child", "close-stdout", None)
         self._wake_out()
+
+    def _wake_in(self):
+        for w in list(self._in_waiters):
+            if not w.done():
+                w.set_result(None)
 
     def _wake_out(self):
         w = self._out_waiter
@@ -206,8 +213,8 @@ class FakeChild:
                 del self._line_buf[: i + 1]
                 self.lines_in.append(line)
                 self._on_line(line)
-        if self.in_buffered <= self.capacity // 4 and self._in_waiter is not None and not self._in_waiter.done():
-            self._in_waiter.set_result(None)
+        if self.in_buffered <= self.capacity // 4:
+            self._wake_in()
         if not self.in_buf and self.parent_closed_stdin and not self.stdin_eof_seen:
             self._see_stdin_eof()
 
@@ -237,8 +244,7 @@ class FakeChild:
         """The child closes its stdin: further parent writes break."""
         self.stdin_broken = True
         self.sim.rec("child", "close-stdin", None)
-        if self._in_waiter is not None and not self._in_waiter.done():
-            self._in_waiter.set_result(None)
+        self._wake_in()
 
     # ---- life cycle -------------------------------------------------------------------
     def signal(self, name: str):
@@ -263,8 +269,7 @@ class FakeChild:
         self.out_eof = True
         self.stdin_broken = True
         self._wake_out()
-        if self._in_waiter is not None and not self._in_waiter.done():
-            self._in_waiter.set_result(None)
+        self._wake_in()
         # the child watcher notices one loop iteration later
         self.sim.loop.call_soon(self._reap)
 
